@@ -203,6 +203,62 @@ theorem P_pushVertex (s : St) (p : Pt) (d : Nat) (o : Option Nat) (v : Nat) :
   · simp [h]
   · simp [h]
 
+/-! ### vertex anchors stay in range -/
+
+/-- every `out_edge` entry names an existing half-edge -/
+def VBound (s : St) : Prop := ∀ v e, s.vOut.getD v none = some e → e < s.nE
+
+/-- the anchor written by an instruction (if any) is below `N` -/
+def Instr.argOK (N : Nat) : Instr → Prop
+  | .vout _ (some e) => e < N
+  | .pushVertex _ _ (some e) => e < N
+  | _ => True
+
+theorem vb_apply (s : St) (N : Nat) (i : Instr) (h : ∀ v e, s.vOut.getD v none = some e → e < N)
+    (hi : i.argOK N) : ∀ v e, (i.apply s).vOut.getD v none = some e → e < N := by
+  intro v e hv
+  cases i with
+  | vout w o =>
+    simp only [Instr.apply, setVOut, Array.getD_eq_getD_getElem?, Array.getElem?_setIfInBounds] at hv
+    split at hv
+    · split at hv
+      · cases o with
+        | none => simp at hv
+        | some e' => simp at hv; subst hv; exact hi
+      · simp at hv
+    · exact h v e (by simpa [Array.getD_eq_getD_getElem?] using hv)
+  | pushVertex p d o =>
+    simp only [Instr.apply, pushVertex, Array.getD_eq_getD_getElem?, Array.getElem?_push] at hv
+    split at hv
+    · cases o with
+      | none => simp at hv
+      | some e' => simp at hv; subst hv; exact hi
+    · exact h v e (by simpa [Array.getD_eq_getD_getElem?] using hv)
+  | next _ _ => exact h v e hv
+  | prev _ _ => exact h v e hv
+  | face _ _ => exact h v e hv
+  | origin _ _ => exact h v e hv
+  | he _ _ => exact h v e hv
+  | fadj _ _ => exact h v e hv
+  | pushEdge _ _ => exact h v e hv
+  | pushFace _ => exact h v e hv
+
+theorem vb_run (l : List Instr) : ∀ (s : St) (N : Nat), (∀ v e, s.vOut.getD v none = some e → e < N) →
+    (∀ i ∈ l, i.argOK N) → ∀ v e, (s.run l).vOut.getD v none = some e → e < N := by
+  induction l with
+  | nil => intro s N h _; exact h
+  | cons i is ih =>
+    intro s N h hi
+    simp only [run, List.foldl_cons]
+    exact ih (i.apply s) N (vb_apply s N i h (hi i List.mem_cons_self)) (fun j hj => hi j (List.mem_cons_of_mem _ hj))
+
+/-- an instruction list whose anchors are below the final edge count keeps `VBound` -/
+theorem vbound_run (s : St) (l : List Instr) (hvb : VBound s) (N : Nat) (hN : (s.run l).nE = N) (hle : s.nE ≤ N)
+    (hargs : ∀ i ∈ l, i.argOK N) : VBound (s.run l) := by
+  intro v e hv
+  rw [hN]
+  exact vb_run l s N (fun v e h => Nat.lt_of_lt_of_le (hvb v e h) hle) hargs v e hv
+
 attribute [local irreducible] modHE setNext setPrev setFace setOrigin setHE setVOut setFAdj pushEdge pushFace pushVertex
 
 /-- symbolic evaluation of a literal instruction list: unfolds `run`, then rewrites sizes and
@@ -475,6 +531,80 @@ theorem of_local2 {t : St} (T TN TP TF O FT : List Nat)
         · rw [a2] at h1; exact hnF h1
       rw [aframe f h0 hlt hnF]
       exact ⟨by omega, by rw [fframe _ a1 haT]; exact a2⟩
+/-- In a state with the link invariant and `FaceTriples`, two half-edges of the same inner face
+lie on the same 3-cycle. -/
+theorem same_face_cycle (ht : s.FaceTriples) {e g : Nat} (he : e < s.nE) (hg : g < s.nE)
+    (hfe : s.fc e ≠ 0) (h : s.fc g = s.fc e) : g = e ∨ g = s.nxt e ∨ g = s.prv e := by
+  have hfg : s.fc g ≠ 0 := by rw [h]; exact hfe
+  have te := hs.tri he hfe
+  have tg := hs.tri hg hfg
+  have a1 := ht e he hfe
+  have a2 := ht g hg hfg
+  rw [h] at a2
+  -- the representative lies on both cycles
+  rcases a1 with a1 | a1 | a1 <;> rcases a2 with a2 | a2 | a2
+  · left; rw [← a2, a1]
+  · -- fe = e = nxt g  →  g = prv e
+    right; right
+    have : s.prv (s.nxt g) = g := tg.2.2.2.2.1
+    rw [← a2, a1] at this; exact this.symm
+  · -- fe = e = prv g → g = nxt e
+    right; left
+    have : s.nxt (s.prv g) = g := tg.2.2.2.1
+    rw [← a2, a1] at this; exact this.symm
+  · -- fe = nxt e = g
+    right; left; rw [← a2, a1]
+  · -- nxt e = nxt g → e = g
+    left
+    have h1 : s.prv (s.nxt g) = g := tg.2.2.2.2.1
+    have h2 : s.prv (s.nxt e) = e := te.2.2.2.2.1
+    rw [← a2, a1, h2] at h1; exact h1.symm
+  · -- nxt e = prv g → g = nxt (nxt e) = prv e
+    right; right
+    have h1 : s.nxt (s.prv g) = g := tg.2.2.2.1
+    rw [← a2, a1, te.2.2.1] at h1; exact h1.symm
+  · right; right; rw [← a2, a1]
+  · -- prv e = nxt g → g = prv (prv e) = nxt e
+    right; left
+    have h1 : s.prv (s.nxt g) = g := tg.2.2.2.2.1
+    rw [← a2, a1, te.2.2.2.2.2.1] at h1; exact h1.symm
+  · -- prv e = prv g → e = g
+    left
+    have h1 : s.nxt (s.prv g) = g := tg.2.2.2.1
+    have h2 : s.nxt (s.prv e) = e := te.2.2.2.1
+    rw [← a2, a1, h2] at h1; exact h1.symm
+
+/-- `FaceTriples` of an updated state from the touched edges only: every old inner half-edge whose
+face is among the rewritten ones (`FT`) is touched, the faces of untouched edges keep their anchor
+(`aframe`), and the touched / new edges are checked. -/
+theorem faceTriples_of_local {t : St} (ht : s.FaceTriples) (T TN TP TF FT : List Nat)
+    (hE : s.nE ≤ t.nE)
+    (hTN : ∀ x ∈ TN, x ∈ T) (hTP : ∀ x ∈ TP, x ∈ T) (hTF : ∀ x ∈ TF, x ∈ T)
+    (nframe : ∀ i, i < s.nE → i ∉ TN → t.nxt i = s.nxt i)
+    (pframe : ∀ i, i < s.nE → i ∉ TP → t.prv i = s.prv i)
+    (fframe : ∀ i, i < s.nE → i ∉ TF → t.fc i = s.fc i)
+    (aframe : ∀ f, 0 < f → f < s.nF → f ∉ FT → t.fe f = s.fe f)
+    (hFTall : ∀ g, g < s.nE → s.fc g ≠ 0 → s.fc g ∈ FT → g ∈ T)
+    (check : ∀ x, x < t.nE → (x ∈ T ∨ s.nE ≤ x) → t.fc x ≠ 0 →
+      t.fe (t.fc x) = x ∨ t.fe (t.fc x) = t.nxt x ∨ t.fe (t.fc x) = t.prv x) :
+    t.FaceTriples := by
+  intro x hx hfx
+  by_cases hc : x ∈ T ∨ s.nE ≤ x
+  · exact check x hx hc hfx
+  · have hnT : x ∉ T := fun h => hc (Or.inl h)
+    have hlt : x < s.nE := by
+      by_cases h : s.nE ≤ x
+      · exact absurd (Or.inr h) hc
+      · omega
+    have e1 : t.nxt x = s.nxt x := nframe x hlt fun h => hnT (hTN _ h)
+    have e2 : t.prv x = s.prv x := pframe x hlt fun h => hnT (hTP _ h)
+    have e3 : t.fc x = s.fc x := fframe x hlt fun h => hnT (hTF _ h)
+    rw [e3] at hfx ⊢
+    have hnFT : s.fc x ∉ FT := fun h => hnT (hFTall x hlt hfx h)
+    have hfl : s.fc x < s.nF := (hs.edge x hlt).2.2.2.1
+    rw [aframe _ (Nat.pos_of_ne_zero hfx) hfl hnFT, e1, e2]
+    exact ht x hlt hfx
+
 end LInv
 
 end St
